@@ -439,7 +439,7 @@ func (g *fgen) bindParams() {
 		}
 		i++
 	}
-	if fn.Signature.Recv() != nil && len(fn.Params) > 0 {
+	if fn.Signature.Recv() != nil && len(fn.Params) > 0 && !(g.fc != nil && g.fc.nilRecvOK) {
 		if _, ok := fn.Params[0].Type().Underlying().(*types.Pointer); ok {
 			g.fact("true", fmt.Sprintf("(not (= %s 0))", g.vals[fn.Params[0]].t))
 		}
@@ -474,6 +474,7 @@ func (g *fgen) run() {
 	g.setupGinvs()
 	g.setupGuards()
 	g.assumeGinvs(g.entry)
+	g.assumeAxioms()
 	// requires
 	env := g.clauseEnv(g.entry, nil, nil)
 	for _, c := range fc.witnesses {
@@ -1990,4 +1991,38 @@ func allEdgesAlloc(phi *ssa.Phi, seen map[*ssa.Phi]bool) bool {
 		}
 	}
 	return true
+}
+
+// assumeAxioms: axioms (assumed, listed) and lemmas (proved as obligations of their own
+// property) of the function's package, or about spec functions its contracts name, are
+// facts of the verification condition.
+func (g *fgen) assumeAxioms() {
+	if len(g.w.cs.lemmas) == 0 {
+		return
+	}
+	mentioned := g.mentionedNames()
+	for _, ld := range g.w.cs.lemmas {
+		rel := ld.pkgPath == g.pkgPath
+		if !rel && mentioned != nil {
+			for _, id := range reIdent.FindAllString(ld.body.src, -1) {
+				if g.w.cs.specs[id] != nil && mentioned[id] {
+					rel = true
+					break
+				}
+			}
+		}
+		if !rel {
+			continue
+		}
+		nq := new(int)
+		env := &cenv{g: g, st: g.entry, old: g.entry, vars: map[string]val{}, pkg: g.w.allTPkg[ld.pkgPath], nq: nq}
+		t, err := env.safeBool(ld.body)
+		if err != nil {
+			continue
+		}
+		g.fact("true", t)
+		if ld.isAxiom {
+			g.assum["axiom "+ld.name+": "+ld.body.src] = true
+		}
+	}
 }
